@@ -75,9 +75,26 @@ def check(report: Report, repo: Repo) -> None:
     zlr = sp.Integer(0)
     scenarios.append(("generator-like tuple of groups", ({"params": [p1], "nesterov": O("nesterov")}, {"params": [p3, p2], "lr": glr}), dict(lr=lr, weight_decay=wd), [(p1, lr, wd, {"nesterov": None}), (p3, glr, wd, {}), (p2, glr, wd, {})]))
 
+    from ..values import OneShot
+
+    p1, p2, p3, pu = mk()
+    # torch-docs idiom {"params": model.base.parameters()}: the group's params is a one-shot iterator
+    scenarios.append(("group whose params is a generator", [{"params": OneShot([p1, p2]), "lr": glr}, {"params": OneShot([p3])}], dict(lr=lr, weight_decay=wd), [(p1, glr, wd, {}), (p2, glr, wd, {}), (p3, lr, wd, {})]))
+    p1, p2, p3, pu = mk()
+    scenarios.append(("bare generator of parameters", OneShot([p1, p2, p3]), dict(lr=lr, weight_decay=wd), [(p1, lr, wd, {}), (p2, lr, wd, {}), (p3, lr, wd, {})]))
+    p1, p2, p3, pu = mk()
+    pu.attrs["requires_grad"] = False  # frozen when the optimizer is built (may be un-frozen later)
+    p2.attrs["requires_grad"] = False
+    scenarios.append(("frozen parameters (tagged and allowed-untagged)", [p1, pu, p2], dict(lr=lr, weight_decay=wd, allow_non_unit_scaling_params=True), [(p1, lr, wd, {}), (pu, lr, wd, {}), (p2, lr, wd, {})]))
+
     n_groups = 0
     for sname, params, kw, expect in scenarios:
         for indep in (True, False):
+            if isinstance(params, OneShot):
+                params = OneShot(tuple(params))  # a fresh generator for each run
+            for e_ in (params if isinstance(params, (list, tuple)) else []):
+                if isinstance(e_, dict) and isinstance(e_.get("params"), OneShot):
+                    e_["params"] = OneShot(tuple(e_["params"]))
             before = snapshot(params)
             it.events = []
             it.data_syms = {}
@@ -100,7 +117,7 @@ def check(report: Report, repo: Repo) -> None:
                 okp = isinstance(g.get("params"), list) and len(g["params"]) == 1 and g["params"][0] is p
                 report.add("R1-groups", f"{cons}::order", okp, f"{lab}: group {i} must hold exactly input parameter #{i} ({fmt(p)})", fmt(g.get("params")), fmt([p]))
                 keys = set(g) - {"params", "lr", "weight_decay"}
-                src_group = next((e_ for e_ in params if isinstance(e_, dict) and any(q is p for q in e_.get("params", []))), {})
+                src_group = next((e_ for e_ in params if isinstance(e_, dict) and any(q is p for q in tuple(e_.get("params", [])))), {})
                 okk = keys == set(extra) and all((g[k] is extra[k]) or (extra[k] is None and g[k] is src_group.get(k)) for k in extra) and {"lr", "weight_decay"} <= set(g)
                 report.add("R2-keys", f"{cons}::extra-keys", okk, f"{lab}: group {i} carries over exactly the other options of its source group", sorted(map(str, set(g))), sorted(["params", "lr", "weight_decay", *extra]))
                 tagged = "mup_type" in p.attrs
